@@ -2,6 +2,8 @@ import QModel.AlgebraIO
 import QModel.MachineIO
 import QModel.AtomsIO
 import QModel.AdaptiveIO
+import QModel.OpsIO
+import QModel.CriteriaIO
 /-! Model driver: one operation per line on stdin, one canonical result line on stdout.
     Run with `lake env lean --run Driver.lean`. -/
 
@@ -13,6 +15,8 @@ def dispatch (line : String) : String :=
     else if cmd = "mm" then MM.handle ws
     else if cmd.startsWith "ri." || cmd.startsWith "at." || cmd = "mol" then RI.handle ws
     else if cmd = "c18direct" || cmd = "c18run" then AFB.handle ws
+    else if cmd = "ops" then Ops.handle ws
+    else if cmd = "crit" || cmd = "crit-raw" then Crit.IO.handle ws
     else "bad-op"
 
 partial def loop (h : IO.FS.Stream) (out : IO.FS.Stream) : IO Unit := do
